@@ -337,7 +337,7 @@ func (c *c06) RunDesc(desc json.RawMessage) engine.Result {
 			Detail: fmt.Sprintf("injected: %v\n %s", names, overlayMsg), Case: desc})
 	}
 	if len(cs.Inj) == 1 && cs.Inj[0].Gap == 12 {
-		res.Sample = sim.MustJSON(map[string]interface{}{"variant": cs.Variant, "schedule": names, "accepted": accepted})
+		res.Sample = sim.MustJSON(map[string]interface{}{"variant": cs.Variant, "schedule": names, "accepted": accepted, "consensus_history": describeBlocks(h)})
 	}
 	return res
 }
